@@ -7,3 +7,7 @@ CONTRACTS = list(_PIPELINE)
 from contracts.C08_polars_check_pipeline import CONTRACTS as _POLARS_PIPELINE  # noqa: E402  (the polars twin of the pipeline)
 
 CONTRACTS += list(_POLARS_PIPELINE)
+
+from contracts.C01_table_output import CONTRACTS as _TABLE_OUTPUT  # noqa: E402  (ignore_na / n_failure_cases on a table-shaped check output)
+
+CONTRACTS += list(_TABLE_OUTPUT)
